@@ -329,7 +329,43 @@ def r3_seek_not_lost(ctx):
                   "the next entry's diff block is applied at the wrong old offset" % b.id, nx.loc(), sample={"patcher": b.id, "seek_blocks": sorted(seeks), "zero_tests": sorted(zero_tests)})
 
 
+def r7_positioned_reads(ctx):
+    """the streaming patcher reads the old file at positions the control stream dictates; the reader it was given may stand anywhere (the caller may
+    have sniffed a magic number or hashed the file). Every read of the old file is therefore behind an absolute seek on every path - unless the skip
+    is decided by a cached position that is itself taken from the reader (stream_position / a seek result), never from a constant"""
+    rule = "C16.R7"
+    ctx.rule(rule, "ZbsdiffPatcher: every read of the old file passes an absolute seek of that reader on every path (or a position cache fed from the reader)")
+    from .cachebooks import recv_fields, on_field
+    n = 0
+    bodies = [b for b in ctx.prog.bodies.values() if b.krate == "cascette_formats" and re.search(r"zbsdiff/patcher\.rs$", b.file or "")]
+    for b in sorted(bodies, key=lambda x: x.id):
+        reads = [c for c in b.calls if c.bb in b.live_blocks() and re.search(r"\bRead>?::(read_exact|read|read_to_end)$", c.orig_name or c.name) and on_field(recv_fields(b, c), "old_file")]
+        if not reads:
+            continue
+        seeks = {c.bb for c in b.calls if c.bb in b.live_blocks() and re.search(r"\bSeek>?::seek$", c.orig_name or c.name) and on_field(recv_fields(b, c), "old_file")}
+        ctx.saw(b)
+        for rd in reads:
+            n += 1
+            bypass = rd.bb in b.reachable([0], avoid=seeks)
+            excused = False
+            if bypass:
+                # a position cache: some field of the patcher compared on the way; excused when a write of that field derives from the reader
+                for ob in bodies:
+                    for (i, j, st) in ob.stmts():
+                        fs = place_fields(st["p"])
+                        if fs and fs[-1] not in ("old_file",) and st["r"]["k"] == "Use" and op_local(st["r"]["o"][0]) is not None:
+                            sl = Slice(ob, [op_local(st["r"]["o"][0])], transparent=True)
+                            if any(re.search(r"\bSeek>?::(stream_position|seek)$", x.orig_name or x.name) for x in sl.calls):
+                                excused = True
+            ctx.check(not bypass or excused, rule, [b.id, "seek-before-read"], "the read is behind an absolute seek on every path",
+                      "%s reads the old file on a path that does not seek first (the seek is skipped on a cached position that never came from the reader): a "
+                      "reader handed over at an offset other than 0 - after the caller peeked at a header or hashed the file - is read from the wrong place and "
+                      "the patcher returns Ok with shifted bytes" % ctx._stable(b.id), rd.loc(), sample={"read": rd.loc(), "seek_blocks": sorted(seeks)})
+    ctx.floor(rule, n, 1, "reads of the old file in the streaming patcher")
+
+
 def run(ctx):
+    r7_positioned_reads(ctx)
     r1_relative_seek(ctx)
     r2_length_check(ctx)
     r3_seek_not_lost(ctx)
